@@ -76,7 +76,7 @@ func genCodec(t *rapid.T, depth int, label string) codec {
 		salt := rapid.SampledFrom([]string{"", "salt", "other"}).Draw(t, label+"_salt")
 		return codec{"hash(" + salt + ")", &stickycookie.HashValue{Salt: salt}, 0}
 	case k == 2 || depth == 0:
-		ttl := time.Duration(rapid.SampledFrom([]int{0, 0, 2, 5, 60}).Draw(t, label+"_ttl")) * time.Second
+		ttl := time.Duration(rapid.SampledFrom([]int{0, 0, 2000, 5000, 60000, 1500, 2500, 3700}).Draw(t, label+"_ttl")) * time.Millisecond
 		key := genKey(t, label)
 		v, err := stickycookie.NewAESValue(key, ttl)
 		if err != nil {
@@ -383,7 +383,7 @@ func TestC11_Sessions(t *testing.T) {
 				}
 				poolChange = true
 			case 8: // time
-				d := time.Duration(rapid.SampledFrom([]int64{100, 900, 1500, 3000, 6000, 61000}).Draw(t, "adv"))*time.Millisecond + time.Microsecond
+				d := time.Duration(rapid.SampledFrom([]int64{100, 200, 300, 600, 900, 1500, 3000, 6000, 61000}).Draw(t, "adv"))*time.Millisecond + time.Microsecond
 				clock.Advance(d)
 				now += d
 				w.logf("advance(%v)", d)
